@@ -26,6 +26,9 @@ PATHS = {
     "dotdot": lambda name: {"../escape_%s.go" % name: "package x"},
     "dotdot-inner": lambda name: {"%s/../%s/in.go" % (name, name): "package x"},
     "samepath": lambda name: {"shared/same.go": "package shared // %s" % name},
+    # the same path with byte-identical (or empty) contents is as much a conflict as with different ones
+    "samepath-same": lambda name: {"shared/same.go": "package shared\n"},
+    "samepath-empty": lambda name: {"shared/same.go": ""},
     "samepath-dot": lambda name: {("./shared/same.go" if name.endswith("2") else "shared/same.go"): "package shared // %s" % name},
     "corepath": lambda name: {"svc/svc.go": "package svc // plugin"},
     "corepath-dot": lambda name: {"./svc/svc.go": "package svc // plugin"},
@@ -166,6 +169,10 @@ def run(ctx):
                                  for i, g in enumerate(gens)]}
                 cases.append(expand(d, "inproc", rng))
                 cases.append(expand(d, "cli", rng))
+        for g1, g2 in (("samepath-same", "samepath-same"), ("samepath-empty", "samepath-empty"), ("samepath", "samepath-same"), ("samepath-same", "ok")):
+            d = {"id": "identical-%s-%s" % (g1, g2), "plugins": [{"name": "p1", "hs": "ok", "gen": g1, "bye": "ok"}, {"name": "p2", "hs": "ok", "gen": g2, "bye": "ok"}]}
+            cases.append(expand(d, "inproc", rng))
+            cases.append(expand(d, "cli", rng))
         # frames under arbitrary segmentation: truncation at every byte offset, 1-byte writes, oversize prefix
         offs = range(0, 70, 7) if ctx.quick() else range(0, 120)
         for k in offs:
